@@ -206,7 +206,15 @@ def chunks(body):
                 out.extend(chunks(body[i + 1:e]))
                 start = e + 1
                 i = e
-            elif '(' in head or re.search(r'\b(struct|class|union|enum)\b', head):
+            elif '(' not in head and re.search(r'\b(struct|class|union|enum)\b', head):
+                # type definition, possibly with declarators after the closing brace:  union U { .. } member;
+                j2 = body.find(';', e)
+                if j2 < 0:
+                    j2 = e
+                out.append(body[start:j2 + 1])
+                start = j2 + 1
+                i = j2
+            elif '(' in head:
                 out.append(body[start:e + 1])
                 start = e + 1
                 i = e
@@ -225,6 +233,10 @@ def members(body):
     for c in chunks(body):
         c = re.sub(r'^((public|private|protected)\s*:\s*)+', '', c).strip()
         c = re.sub(r'alignas\s*\([^)]*\)', '', c).strip()
+        mi = re.match(r'^(union|struct)\s+(\w+)\s*\{.*\}\s*(\w+)\s*;$', c, re.S)
+        if mi:      # nested type defined together with a member of that type
+            F.append(dict(type=mi.group(2), name=mi.group(3), atomic=False, init=None, const=False))
+            continue
         if c.startswith(('using', 'friend', 'template', 'static', 'enum', 'struct', 'class', 'union', 'typedef')):
             continue
         if re.search(r'\boperator\b|=\s*(delete|default)\s*;', c):
